@@ -7,3 +7,4 @@ import WrglModel.Props.C05
 #print axioms Wrgl.C05_conflict_reported
 #print axioms Wrgl.C05_disjoint_no_conflict
 #print axioms Wrgl.C05_cols_model_extends_same
+#print axioms Wrgl.C05_unresolve_table_is_model
